@@ -231,6 +231,20 @@ void Exec::op_query(const Json& o,const std::string& op){
     settle(rc,fired,bad,"C15","C14","dot:"+kd(a)+","+kd(b));
     shp(op); check_all(c,bad?"C14":"C15",sig); return;
   }
+  if(op=="dot_expr"){
+    // scalar product of two expressions: (a+a)*(b-b') style; mismatched dimensions must be rejected like the plain scalar product
+    if(!usable(b)){ skip("operand"); return; }
+    bool bad=(c.mv[b].dim!=d);
+    double r=0; int form=(int)(o["i"].as_int(0)%3);
+    begin(op,bad?"C14":"C15");
+    int rc=lib_call(c,[&]{
+      SU_vector& A=c.slot[a].v(); SU_vector& B=c.slot[b].v();
+      switch(form){ case 0: r=(A+A)*(B+B); break; case 1: r=(A*2.0)*(B-B); break; default: r=(-A)*(B*0.5); }
+    });
+    bool fired=end();
+    settle(rc,fired,bad,"C15","C14","dot_expr:"+kd(a).substr(0,1)+","+kd(b).substr(0,1));
+    shp(op); check_all(c,bad?"C14":"C15",sig); return;
+  }
   if(op=="rotate_m"){
     long dm=o["d"].as_int(d); if(dm<1||dm>7){ skip("matrix size"); return; }
     { std::vector<double> av=mvals(c,a); for(size_t i=0;i<av.size();i++) if(!(std::fabs(av[i])<1e60) || (av[i]!=0 && std::fabs(av[i])<1e-100)){ skip("non-finite, huge or denormal-scale values"); return; } }
